@@ -15,6 +15,7 @@ import MTfitVerif.Model.Potency
 import MTfitVerif.Model.JobPool
 import MTfitVerif.Model.RandomMT
 import MTfitVerif.Model.PostProc
+import MTfitVerif.Model.MultiEvent
 /- dispatch table of the executable model -/
 namespace MTfitVerif.Driver
 open MTfitVerif Proto
@@ -558,7 +559,55 @@ def opPost : P String := do
     | some (a, b) => pure (outFs [a, b])
   | _ => pure "bad-op:post"
 
+/-! ### C15 — joint multiple-event task -/
+
+def pRelObs : P (MultiEvent.RelObs Float) := do
+  let name ← nat; let a ← flts 6; let amp ← flt; let err ← flt
+  pure { name := name, a := a, amp := amp, err := err }
+
+instance : Inhabited (MultiEvent.Event Float) := ⟨{ ln := LogP.negInf, mt := [], rel := [] }⟩
+
+def pEvent : P (MultiEvent.Event Float) := do
+  let ln ← logp; let mt ← flts 6; let n ← nat; let rel ← many n pRelObs
+  pure { ln := ln, mt := mt, rel := rel }
+
+/-- `joint <relative> <minInt> <E> events…` → total, then for every pair `i > j` (in loop order)
+    `<n shared> <has scale> <scale> <uncertainty>` -/
+def opJoint : P String := do
+  let relative ← bool; let minInt ← nat; let ne ← nat
+  let evs ← many ne pEvent
+  done
+  let total := MultiEvent.joint relative minInt evs
+  let mut out := outLP total
+  for i in [0:evs.length] do
+    for j in [0:i] do
+      let ei := evs[i]!
+      let ej := evs[j]!
+      let n := (MultiEvent.pairs ei.rel ej.rel).length
+      match MultiEvent.pairScale minInt ei ej with
+      | some (sc, u) => out := out ++ s!" {n} 1 " ++ outFs [sc, u]
+      | none => out := out ++ s!" {n} 0 0 0"
+  pure out
+
+def opScaleEst : P String := do
+  let r ← flt; let mx ← flt; let my ← flt; let ex ← flt; let ey ← flt
+  done
+  let q := MultiEvent.stationScale r mx my ex ey
+  pure (outFs [q.1, q.2])
+
+def opCombineMu : P String := do
+  let n ← nat
+  let xs ← many n (do let m ← flt; let sd ← flt; pure (m, sd))
+  done
+  match MultiEvent.combineMu xs with
+  | none => pure "none"
+  | some (m, sd) => pure (outFs [m, sd])
+
+
 def table : List (String × P String) := [
+  ("joint", opJoint),
+  ("scaleest", opScaleEst),
+  ("combinemu", opCombineMu),
   ("post", opPost),
   ("random", opRandom),
   ("jobpool", opJobPool),
